@@ -8,11 +8,9 @@
            Compared: the outcome class and, on success, the output documents IN ORDER, each as a WHOLE
            document at the typed-JSON level (every scalar with its tag, its quotedness when untagged and its
            text; sequences in order) modulo the order of mapping keys (the final emission goes through
-           encoding/json, which sorts them) and modulo the canonical rewrite of metadata.annotations that
-           Resource.SetAnnotations performs at the end of every build (applied to both sides).
-   CPipeOrder : the transformer / generator order the running implementation uses (observed through the
-           kinds of the configured plugins is not possible without a hook; instead the harness passes the
-           order table it parsed from the source it was BUILT against) vs. the generated table. *)
+           encoding/json, which sorts them) and modulo the canonical form of metadata.annotations that
+           Resource.SetAnnotations produces at the end of every build (the observed side is only re-canonicalised,
+           no key is removed from it). *)
 From KV Require Export Res.Pipeline.
 
 Inductive casePIPE :=
@@ -58,9 +56,26 @@ Fixpoint json_eqbP (a b : json) {struct a} : bool :=
   | _, _ => false
   end.
 
+(* the canonical form Resource.SetAnnotations leaves metadata.annotations in (keys sorted, values !!str, at the
+   end of metadata) - WITHOUT removing any key: an internal annotation left in an observed output is a mismatch *)
+Definition canon_annos (n : node) : node :=
+  match annos_of n with
+  | [] => n
+  | a =>
+      match n with
+      | Map kvs =>
+          match find_field "metadata" kvs with
+          | Some (Map mkvs) =>
+              Map (set_first "metadata" (Map (remove_first "annotations" mkvs ++ meta_map_field "annotations" a)%list) kvs)
+          | _ => n
+          end
+      | _ => n
+      end
+  end.
+
 (* model output vs observed output document *)
 Definition doc_agree (m o : node) : bool :=
-  json_eqbP (json_canon (to_json m)) (json_canon (to_json (strip_node o))).
+  json_eqbP (json_canon (to_json m)) (json_canon (to_json (canon_annos o))).
 
 Fixpoint all2P {A} (f : A -> A -> bool) (l l' : list A) : bool :=
   match l, l' with
@@ -96,7 +111,7 @@ Definition model_outs (c : casePIPE) : res (list json) :=
   end.
 Definition observed_outs (c : casePIPE) : list json :=
   match c with
-  | CPipe _ _ _ _ outs => map (fun o => json_canon (to_json (strip_node o))) outs
+  | CPipe _ _ _ _ outs => map (fun o => json_canon (to_json (canon_annos o))) outs
   end.
 
 (* debugging aid: the locations (as key paths) where two canonical documents differ *)
@@ -141,7 +156,7 @@ Definition case_diff (c : casePIPE) : string * list (list string) :=
       | Ok ms =>
           ((if oclass_eqbP cls COk then "ok/ok" else "model-ok/impl-fails") ++
            (if Nat.eqb (List.length ms) (List.length outs) then "" else " LENGTH"),
-           map (fun mo => jdiff 50 "" (json_canon (to_json (fst mo))) (json_canon (to_json (strip_node (snd mo)))))
+           map (fun mo => jdiff 50 "" (json_canon (to_json (fst mo))) (json_canon (to_json (canon_annos (snd mo)))))
                (combine ms outs))
       | Err => ((if oclass_eqbP cls CErr then "err/err" else "model-err/impl-other"), [])
       | Panic => ("model-panic", [])
